@@ -1,4 +1,4 @@
-N = {"quick": 600, "thorough": 6000}
+N = {"quick": 450, "thorough": 6000}
 PROP = dict(
     id="C15",
     module="FV.C15.Props",
@@ -8,8 +8,8 @@ PROP = dict(
     harness_args=lambda tier, seed: ["--seed", str(seed), "--n", str(N[tier])],
     shard=60,
     rule="the real fontc CLI (rebuilt from /repo on every run) is run as a subprocess under ulimits (6 CPU-s, 4 GB, 60 s wall) on: "
-         "(D) a fixed corpus of 15 component graphs (2-cycle, self-loop, 3-cycle, mixed / non-export cycle members, zero and non-zero "
-         "net translation, flatten / decompose / prefer-simple flags, missing component); "
+         "(D) a fixed corpus: 15 component graphs (2-cycle, self-loop, 3-cycle, mixed / non-export cycle members, zero and non-zero "
+         "net translation, flatten / decompose / prefer-simple flags, missing component), acyclic component chains of 300 / 1500 glyphs (recursion depth), 8 text mutants of real .glyphs sources with component cycles, 3 FEA include graphs (self include, 2-cycle, chain of 60) and 6 inputs known to crash the parsers (20000-deep nesting in .glyphs / designspace <lib> / UFO plist; non-numeric unicode and node strings in .glyphs); "
          "(A, 55%) random UFO component graphs of 3..6 glyphs (0..2 contours, 0..2 translated components, 80% exported) with one "
          "structural mutation (cycle of length 1..4 with zero or non-zero net translation, mixed or non-export member, missing "
          "reference, duplicate component, mixed glyph) and one of five flag sets, outcome class compared with Model.exec; "
